@@ -1,4 +1,4 @@
-CONSTANTS MaxItems = 2  MaxOut = 8  Frags = {"a"}
+CONSTANTS MaxItems = 2  MaxOut = 9  Frags = {"a"}
 SPECIFICATION Spec
 CONSTRAINT MCConstraint
 VIEW View
